@@ -19,7 +19,7 @@ import itertools
 from .common import *   # noqa: F401,F403
 from pyvc.core import Builtin
 from pyvc.values import real_val
-from . import C11, C20
+from . import C11, C20, reader
 
 P = 'propka.protonate.Protonate'
 LENGTHS = {'C': 1.09, 'N': 1.01, 'O': 0.96, 'F': 0.92, 'Cl': 1.27, 'Br': 1.41, 'I': 1.61, 'S': 1.35}
@@ -139,10 +139,14 @@ def task_add_proton(pr, repo):
                     at.attrs['number_of_protons_to_add'] == I('nprot') - 1,
                     any(x is h for x in conf.attrs['atoms']) and len(conf.attrs['atoms']) == 1,
                     h.attrs['res_num'] == 57 and h.attrs['chain_id'] == 'A' and h.attrs['res_name'] == 'HIS' and h.attrs['type'] == 'atom']
+            import z3 as _z3
             for c in 'xyz':
                 d = h.attrs[c] - pos.attrs[c]
                 conj.append(And(d <= half, d >= -1 * half))
-            ctx.oblige('AP[%d hydrogen(s) already there]: new hydrogen within 0.0005 A (per coordinate) of the requested position, '
+                # ... and the stored coordinate is a multiple of 0.001: what a PDB file written from it holds
+                hc = h.attrs[c]
+                conj.append(Sym(_z3.IsInt(hc.e * 1000)) if isinstance(hc, Sym) else (abs(hc * 1000 - round(hc * 1000)) < 1e-9))
+            ctx.oblige('AP[%d hydrogen(s) already there]: new hydrogen on the 0.001 A grid within 0.0005 A (per coordinate) of the requested position, '
                        'bonded to exactly this heavy atom, registered in its conformation with its residue labels; '
                        'protons-to-add decreases by one' % prior_h, And(*conj))
         pr.explore(ex, thunk, 'add_proton')
@@ -503,7 +507,7 @@ def ground_expected(pr, repo):
 def run(pr, repo):
     ground_expected(pr, repo)
     pr.parallel([(task_bond_distance, ()), (task_orthogonal, ()), (task_add_proton, ()), (task_electron_count, ()), (task_counts, ()), (task_obtuse, ()),
-                 (task_equivariance, ()), (C20.task_rotation, ())])
+                 (task_equivariance, ()), (C20.task_rotation, ()), (reader.task_nterm, ())])
     pr.assumptions += ['"regular covalent geometry" is encoded as: existing bonds longer than 0.5 A; 2-bond case: cos(angle) > -0.9; '
                        '3-bond case: cos(angle) in (-0.6, 0.2)', 'sequentially built hydrogens (Arg/Asn/Gln NH2, methyl-like cases) and the '
                        '1-bond placements that go through rotate_vector_around_an_axis: at least 0.5 A apart is BOUNDED only (monitor); '
